@@ -43,6 +43,10 @@ PROPS = {
                 slices=[S("tx", 400, 6000, ["corr", "tx_atomic", "converge"])], assumptions=REPLICA_ASSUMPTIONS),
     "C10": dict(lean=["Orda.Props.C10"], rule="non-trivial: a snapshot round trip was taken from a state with ≥1 tombstone or remote operation and followed by ≥1 continuation step on both original and copy",
                 slices=[S("snap", 400, 6000, ["corr", "twin", "converge"])], assumptions=REPLICA_ASSUMPTIONS),
+    "C14": dict(lean=["Orda.Props.C14"], rule="every operation emitted by random histories of all four datatypes (all operation types) is pushed through protobuf, the store and the echo service; every Go value shape x {map, list, document} compares sender and receiver; non-trivial = operations with a non-empty body; distinct = distinct canonical operations",
+                slices=[S("enc", 40, 600, ["enc_roundtrip"]), S("conv", 150, 2000, ["corr", "converge"])], assumptions=REPLICA_ASSUMPTIONS + ["invalid UTF-8 byte strings are outside the property's domain (not unicode strings) and are not generated"]),
+    "C19": dict(lean=["Orda.Props.C19"], rule="non-trivial: a PatchByJSON / REST patch whose script has ≥2 operations or touches a nested path, on a document reached by a multi-replica history; jdiff lines: tree pairs with a non-empty script; distinct command sequences",
+                slices=[S("patch", 80, 1200, ["corr", "patch_target", "converge", "no_panic"]), S("rest", 50, 700, ["corr", "patch_target", "sconverge", "loginv"])], assumptions=REPLICA_ASSUMPTIONS + SERVICE_ASSUMPTIONS[:2]),
     "C15": dict(lean=["Orda.Props.C15"], rule="non-trivial: history with failing calls, rollbacks or remote deliveries between local operations; grid slice: every (lamport, delimiter) pair of the grid",
                 slices=[S("ids", 300, 5000, ["corr", "seq_gapless", "no_panic"]), S("hashgrid", 1, 4, ["corr", "hash_unique"])],
                 assumptions=REPLICA_ASSUMPTIONS),
@@ -78,6 +82,10 @@ def nontrivial(pid, case):
     errs = sum(1 for ln, _ in case if ln.get("k") == "call" and ln.get("obs", {}).get("err"))
     oks = sum(1 for ln, _ in case if ln.get("k") == "call" and not ln.get("obs", {}).get("err"))
     remote = sum(1 for ln, _ in case[3:] if ln.get("k") == "dlv" and ln.get("obs", {}).get("ids"))
+    if pid == "C14":
+        return True
+    if pid == "C19":
+        return any(ln.get("k") in ("pjson", "patch") and len(ln.get("obs", {}).get("patch", []) or []) >= 1 for ln, _ in case) or any(ln.get("k") == "patch" for ln, _ in case)
     if pid == "C03":
         return errs > 0 and oks > 0
     if pid == "C09":
